@@ -157,6 +157,12 @@ def add_extras(case, recipe, root, exp, res):
         return
     lid = provided[0]
     hdr = f"# SPDX-FileCopyrightText: 2004 Extra Holder\n# SPDX-License-Identifier: {lid}\n"
+    if case["k"] % 3 == 2:
+        # classic Mac line ends: every line of the file ends in a lone CR; the licence value ends where its line does
+        (root / "mac_lines.py").write_bytes((hdr + "m = 1\nprint(m)\n").replace("\n", "\r").encode())
+        (root / "mac_c.c").write_bytes(f"/*\r * SPDX-FileCopyrightText: 2004 Extra Holder\r * SPDX-License-Identifier: {lid}\r */\rint m;\r".encode())
+        exp["covered"] |= {"mac_lines.py", "mac_c.c"}
+        res.cell("extra:cr-only-line-ends")
     if case["git"]:
         (root / ".gitignore").write_text(hdr + "*.log\nbuild/\n")
         (root / "newmod").mkdir(exist_ok=True)
